@@ -25,6 +25,11 @@ def scenarios(ck, thorough):
     # the TLC counterexample of ClearAcceptingOnStop=FALSE: DrainBegin DrainTimeout Stop Joined LateSchedule
     # (stop() drains for 5 s: a gated handler keeps the drain from completing)
     S.append("svc svc | at:1:5:g, waitstart:1, thread:wait:5600+release:1, stop, late:3:5, wait:30")
+    # drain()/stop() overlapping a collected batch: the service thread is paused at its n-th mutex unlock after the timer became due
+    # (TimerService.tla: Collect ; DrainBegin ; <drain returns?> ; Start) - the handler must not start after drain returned
+    for n in (1, 2, 3, 4):
+        S.append("svc svc | at:1:40, wait:10, pauseunlock:%d:250, wait:60, drain:2000, wait:300" % n)
+        S.append("svc svc | at:1:40, at:2:40, wait:10, pauseunlock:%d:200, wait:60, stop, wait:250" % n)
     # plain life cycle
     S.append("svc svc | at:1:20, per:2:15, wait:100, cancel:2, cancel:1, wait:50")
     S.append("svc pool | at:1:10, at:2:30, cancel:2, wait:60, stop, late:3:5, wait:30")
